@@ -288,6 +288,24 @@ impl Core {
         Ok(())
     }
 
+    /// Returns `true` if the exact same signed mutable item is already being put,
+    /// in which case the inflight query is sufficient, and should not be replaced.
+    pub fn is_identical_to_inflight_put(&self, request: &PutRequestSpecific) -> bool {
+        if let PutRequestSpecific::PutMutable(PutMutableRequestArguments { sig, target, .. }) =
+            request
+        {
+            if let Some(PutRequestSpecific::PutMutable(inflight_request)) = self
+                .put_queries
+                .get(target)
+                .map(|existing| &existing.request)
+            {
+                return *sig == inflight_request.sig;
+            }
+        }
+
+        false
+    }
+
     /// If we are already announcing a signed peer or a mutable item, might as well
     /// return it to the request asking for the same target.
     pub fn check_outgoing_put_request(&self, target: &Id) -> Option<Response> {
